@@ -262,4 +262,75 @@ theorem finalCall_summary (cfg : Cfg) (hr : cfg.repaired = true) (prev : Option 
   · simp only [hreach, Bool.false_eq_true, if_false]
     exact Or.inl ⟨hph0, hPS0, hHP0⟩
 
+/-- the proof of `Props.C09.decode_written` (kept here so that lemma files can use it) -/
+theorem decode_written_lemma (cfg : Cfg) (hr : cfg.repaired = true) (hm : cfg.mav = false) (prev : Option Nat) (r : Record)
+    (n : String) (t : Target) (hft : findTarget cfg n = some t) (c : Call) (hwf : WfCall r.format c) :
+    callPhases (writeRecord cfg prev r).record.format (finalCall cfg prev r n c) =
+      .ok (if reaches cfg prev r && cfg.tag == .HP then written false t r.pos else none,
+           if reaches cfg prev r && cfg.tag == .PS then written false t r.pos else none) := by
+  have hHP0 := cleared_get_HP cfg hr r.format c hwf
+  have hph0 := cleared_phased cfg hr r.format c hwf
+  have hcanon : gcode (clearPhasing cfg r.format c).gt ≠ [] →
+      (clearPhasing cfg r.format c).gt = some ((gcode (clearPhasing cfg r.format c).gt).map some) := by
+    rw [cleared_gt cfg hr]; exact unphaseGt_canonical c
+  have hfin : finalCall cfg prev r n c =
+      if reaches cfg prev r then (updateCall cfg t r (clearPhasing cfg r.format c)).1 else clearPhasing cfg r.format c := by
+    simp only [finalCall, hft]
+  rw [hfin, writeRecord_format]
+  generalize clearPhasing cfg r.format c = c0 at hHP0 hph0 hcanon
+  by_cases hreach : reaches cfg prev r = true
+  · simp only [hreach, if_true, Bool.true_and]
+    -- facts about the call after the change step
+    have hf1 := changeStep_fields cfg t r c0
+    have hp1 := changeStep_phased cfg t r c0 hph0
+    have hHP1 : (changeStep cfg t r c0).1.get "HP" = .missing := by simpa [Call.get, hf1] using hHP0
+    rw [updateCall_fst]
+    -- the unphased outcome, common to several branches
+    have hun : callPhases (addKey r.format cfg.tag.key) ((changeStep cfg t r c0).1.set cfg.tag.key .missing) = .ok (none, none) := by
+      have h1 : ((changeStep cfg t r c0).1.set cfg.tag.key .missing).get "HP" = .missing := by
+        cases htag : cfg.tag
+        · rw [Call.get_set_other _ _ _ _ (by decide)]; exact hHP1
+        · exact Call.get_set_same _ _ _
+      have h2 : extractGTPS (addKey r.format cfg.tag.key) ((changeStep cfg t r c0).1.set cfg.tag.key .missing) = none :=
+        extractGTPS_unphased _ _ (by simpa using hp1)
+      simp [callPhases, extractHP_missing _ h1, h2]
+    cases hcomp : alookup t.comps r.pos with
+    | none =>
+      simp only [written, hcomp]
+      rw [hun]; cases cfg.tag <;> simp
+    | some comp =>
+      cases hp : lookupPhase cfg.mav t r.pos with
+      | none =>
+        have hp' : lookupPhase false t r.pos = none := by rw [← hm]; exact hp
+        simp only [written, hcomp, hp']
+        rw [hun]; cases cfg.tag <;> simp
+      | some p =>
+        have hp' : lookupPhase false t r.pos = some p := by rw [← hm]; exact hp
+        have hhet := changeStep_isHet cfg t r c0 p hp
+        simp only [written, hcomp, hp', hhet]
+        cases hh : isHom (sortNat p) with
+        | true =>
+          simp only [Bool.not_true, Bool.false_eq_true, if_false]
+          rw [hun]; cases cfg.tag <;> simp
+        | false =>
+          simp only [Bool.not_false, if_true]
+          have hl := lookupPhase_length hp
+          obtain ⟨h01, hs01⟩ := het01 hl (lookupPhase_alleles hp') hh
+          have hgt1 := changeStep_gt_sorted cfg hr t r c0 p hp hcanon
+          rw [hs01] at hgt1
+          cases htag : cfg.tag with
+          | PS =>
+            obtain ⟨a, b, rfl⟩ := pair_of_length_two hl
+            have hab := het_pair hh
+            have hHPs : (setPS (changeStep cfg t r c0).1 comp [a, b]).get "HP" = .missing := by
+              simp only [setPS, Call.get]
+              rw [fget_fset_other _ _ _ _ (by decide)]
+              exact hHP1
+            simp [callPhases, setTag, Tag.key, extractHP_missing _ hHPs, extractGTPS_setPS _ _ _ _ _ hab]
+          | HP =>
+            have hph : (setHP (changeStep cfg t r c0).1 comp p).phased = false := by simpa [setHP] using hp1
+            simp [callPhases, setTag, Tag.key, extractHP_setHP _ comp p hgt1 h01, extractGTPS_unphased _ _ hph]
+  · simp only [hreach, Bool.false_eq_true, if_false, Bool.false_and]
+    simp [callPhases, extractHP_missing _ hHP0, extractGTPS_unphased _ _ hph0]
+
 end WhVerif.C09
